@@ -548,6 +548,10 @@ class HedSchema(HedSchemaBase):
                 next_index = len(working_tag)
             parent_name = working_tag[:next_index]
             parent_entry = self._get_tag_entry(parent_name)
+            # A literal "#" term only names the placeholder entry when it ends the tag; followed by more text
+            # it is part of the value and must stay in the remainder (e.g. "Label/#/x").
+            if parent_entry and parent_name.endswith("/#") and next_index != len(working_tag):
+                parent_entry = None
 
             if not parent_entry:
                 # We haven't found any tag at all yet
